@@ -344,7 +344,8 @@ def vmdk(capacity_sectors=2048, version=1, desc_sec=1, desc_num=2,
         body += marker + fh + eos
         bounds += [fstart, fstart + 512, fstart + 1024, fstart + 1536]
     return Image('vmdk', bytes(body), size=capacity_sectors * 512,
-                 size_end=desc_at + desc_num * 512, bounds=bounds,
+                 # the descriptor is at most 1 MiB - 1 bytes long (qemu's limit)
+                 size_end=desc_at + min(desc_num * 512, (1 << 20) - 1), bounds=bounds,
                  name=name or ('vmdk-footer' if with_footer else 'vmdk'),
                  desc_at=desc_at, desc_num=desc_num, with_footer=with_footer)
 
